@@ -6,6 +6,8 @@
 
 package unary
 
+//@ import clamp "github.com/synnaxlabs/x/clamp"
+
 //@ pure func (i *Iterator) atStart() bool
 //@ pure func (i *Iterator) atEnd() bool
 //@ inline func (i *Iterator) reset(nextView telem.TimeRange)
